@@ -2,6 +2,7 @@
 (model level) and the exact-rational judgement of the property statement (spec level). -/
 import ClipperVerif.Driver.Proto
 import ClipperVerif.Model.RectClipLines
+import ClipperVerif.Model.RectLinesCover
 namespace Clipper.Driver.C09
 open Clipper Clipper.Proto Clipper.Model.RC
 
@@ -136,6 +137,27 @@ def linesHyp (r : Rect) (poly : Path) : String :=
       | some e => s!"FAIL emitted point {e.pt} outside the widened rectangle"
       | none => "ok"
 
+/-- The hypothesis and the conclusion of `Props.C09Cover.lines_cover`, evaluated on the run of the `double` model
+(= the compiled code, by the `LINES` records) on this input.
+Premise: the run with exact cross-product signs and the same `double` intersection points (`hybridArith`, for which
+`lines_cover` is proved) makes exactly the same `Add` calls.  Conclusion: the `Add` calls satisfy `Cover` (`coverB`). -/
+def linesCover (r : Rect) (poly : Path) : String :=
+  if r.isEmpty then "ok skip empty rectangle" else
+  if poly.length < 2 then "ok skip fewer than 2 points" else
+  let esF := emits floatArith r poly
+  let esH := emits hybridArith r poly
+  let concl := match esF with
+    | some es => coverB floatArith r poly es
+    | none => false
+  let gp := (if noInnerBoundaryB r poly then "general-position" else "inner-boundary-vertex") ++
+    -- hypothesis `IsectExactOn` of `crossing_points_on_boundary` for the real `double` intersection points
+    (if isectExactOnB floatArith r poly then ".isect-exact" else ".isect-rounded")
+  if esF == esH then
+    if concl then s!"ok holds.{gp}" else "FAIL lines_cover contradicted: a sign-exact run does not satisfy Cover"
+  else
+    if concl then s!"ok not-sign-exact.cover-holds.{gp}"
+    else "FAIL Cover violated on a run with a mis-rounded CrossProduct sign"
+
 def handle : String → Option (P String)
   -- LINES rect paths → result paths of the model with double arithmetic
   | "LINES" => some do
@@ -155,6 +177,14 @@ def handle : String → Option (P String)
   | "LINESCHECK" => some do
       let r ← rect; let p ← path; let res ← paths; done
       pure (linesCheck r p res)
+  -- LINESEXACT rect paths → result paths of the model with exact integer arithmetic (`exactArith`)
+  | "LINESEXACT" => some do
+      let r ← rect; let ps ← paths; done
+      pure (showOpt (rectClipLines exactArith r ps))
+  -- LINESCOVER rect polyline → hypothesis and conclusion of `lines_cover` on this run
+  | "LINESCOVER" => some do
+      let r ← rect; let p ← path; done
+      pure (linesCover r p)
   | "LINESHYP" => some do
       let r ← rect; let p ← path; done
       pure (linesHyp r p)
